@@ -1,5 +1,28 @@
-(* STUB: Impl model of xsdt.rs -- to be written *)
-From Coq Require Import NArith List.
-From ACPI Require Import Lib.Bytes Lib.Sx Lib.Machine Impl.Checksum Impl.Table Impl.Fields Impl.Run.
+(* Impl model of xsdt.rs *)
+From Coq Require Import NArith List Bool.
+From ACPI Require Import Lib.Bytes Lib.Sx Lib.Machine Impl.Checksum Impl.Table Impl.Fields Impl.Run Impl.Madt.
 Import ListNotations.
-Definition xsdt_case (md : mode) (c : sx) : list ev := [EvPanic].
+Open Scope N_scope.
+
+(* XSDT::new: header { "XSDT", length = 36, revision 1 }; cksum.append(header.as_bytes()) *)
+Definition xsdt_new (c : sx) : option tbl :=
+  match c with
+  | SL [o; t; r] =>
+      do h <- sx_hdr [88; 83; 68; 84] 1 o t r;          (* "XSDT" *)
+      Some (tbl_new KXsdt h [])
+  | _ => None
+  end.
+
+(* add_entry(entry: u64): new_len = old_len + size_of::<u64>() as u32; checksum.delete(old_len); checksum.append(new_len);
+   checksum.append(&entry.to_le_bytes()); to_aml_bytes writes sink.qword(entry) *)
+Definition xsdt_addition (s : tbl) (o : sx) : option addition :=
+  match o with
+  | SL [SA 1; SA e] =>
+      Some {| a_style := SumAppend; a_claimed := 8; a_bytes := q8 e; a_returns := false; a_flag := t_flag s |}
+  | _ => None
+  end.
+
+Definition xsdt_step : mode -> tbl -> sx -> option (tbl * list ev) := add_step xsdt_addition.
+
+Definition xsdt_case (md : mode) (c : sx) : list ev :=
+  run_history (fun s => Some (tbl_image s)) (xsdt_step md) xsdt_new c.
